@@ -457,6 +457,16 @@ increment_simple_rowgroup_ctr(j_decompress_ptr cinfo, JDIMENSION rows)
     return;
   }
 
+  /* The row groups to skip over must be in the main buffer.  If the current
+   * iMCU row has not been decoded yet (the skip started exactly on an iMCU row
+   * boundary), decode it now, just as process_data_simple_main() would.
+   */
+  if (rows > 0 && !main_ptr->buffer_full) {
+    if (!(*cinfo->coef->_decompress_data) (cinfo, main_ptr->buffer))
+      ERREXIT(cinfo, JERR_CANT_SUSPEND);
+    main_ptr->buffer_full = TRUE;
+  }
+
   /* Increment the counter to the next row group after the skipped rows. */
   main_ptr->rowgroup_ctr += rows / cinfo->max_v_samp_factor;
 
